@@ -42,6 +42,10 @@ def profile(rng, flavour):
     elif flavour == "jumpy":         # Market._set_time: several steps at once while orders with different lives rest
         p.update(ttls=[1, 2, 3, 4, 6, 0], levels=4, nops=rng.choice([40, 60]))
         p["w"].update(tick=8, jump=10, can=6)
+    elif flavour == "standoff":      # market orders resting on BOTH sides (no price to trade at), partial fills of them, new arrivals
+        p.update(p_mo=0.5, levels=2, maxvol=rng.choice([3, 5]), ttls=[0], p_cont=0.0, p_neg=0.0, nops=rng.choice([30, 50]))
+        p["w"].update(match=30, can=14, tick=3, cont=0, run=0, probe=0)
+        p["standoff"] = True
     elif flavour == "penny":         # prices next to zero: a bid below one tick is accepted at price 0 (a price, not None)
         p.update(levels=3, p_off=0.6, p_mo=0.25, maxvol=rng.choice([1, 2, 4]))
         p["penny"] = True
@@ -51,7 +55,7 @@ def profile(rng, flavour):
 def one_history(seed, flavour="mixed", exact=True):
     rng = random.Random(seed)
     if flavour == "mixed":
-        flavour = rng.choice(["plain", "plain", "mo-heavy", "auction", "ttl", "halt", "deep", "deep", "penny", "jumpy", "sweep"])
+        flavour = rng.choice(["plain", "plain", "mo-heavy", "auction", "ttl", "halt", "deep", "deep", "penny", "jumpy", "sweep", "standoff"])
     pr = profile(rng, flavour)
     tick, den = rng.choice(EXACT_GRIDS if exact else DECIMAL_GRIDS)
     base = 0.0
@@ -92,6 +96,9 @@ def _drive(s, rng, pr, ops, wts, cont, mid, den, exact, tick):
     if pr.get("sweep"):
         _sweeps(s, rng, pr, mid, den, exact, tick)
         return
+    if pr.get("standoff"):
+        _standoff(s, rng, mid, den, exact, tick)
+        cont = False
     for _ in range(pr["nops"]):
         op = rng.choices(ops, wts)[0]
         follow = False
@@ -140,7 +147,7 @@ def _drive(s, rng, pr, ops, wts, cont, mid, den, exact, tick):
         elif op == "tick":
             s.tick()
         elif op == "jump":
-            s.jump(rng.choice([2, 2, 3, 5]))
+            s.jump(rng.choice([2, 2, 3, 5, 5, rng.randint(101, 130), rng.randint(201, 260)]))
         elif op == "match":
             if s.m.is_running or rng.random() < 0.5:
                 s.match()
@@ -154,6 +161,31 @@ def _drive(s, rng, pr, ops, wts, cont, mid, den, exact, tick):
             s.probe(acc, t, plural_with_past=rng.random() < 0.5)
         if follow and cont and s.m.is_running:
             s.match()
+
+
+def _standoff(s, rng, mid, den, exact, tick):
+    """market orders of equal volume rest on both sides (a round finds no price and trades nothing); one of them is cancelled,
+    a limit order fills part of the other; then market orders and limit levels arrive on the cancelled side: whether the
+    book is executable now depends on what is REALLY left of the partly filled market order"""
+    def lim(buy, lvl, vol):
+        lvl = max(1, lvl)
+        return s.submit(buy, False, lvl * den, vol, 0, req_float=None if exact else lvl * tick)
+    side = rng.random() < 0.5                 # the side whose market order stays and is partly filled
+    a = rng.randint(3, 6)
+    eb = s.submit(True, True, 0, a, 0)
+    es = s.submit(False, True, 0, a, 0)
+    s.match()
+    gone = es if side else eb
+    if gone is not None and gone.get("id", -1) in s.accepted:
+        s.cancel(gone["id"])
+    lim(not side, mid, rng.randint(1, a - 1))          # fills part of the resting market order
+    s.match()
+    if rng.random() < 0.3:
+        s.tick()
+    s.submit(not side, True, 0, rng.randint(1, a), 0)
+    for k in range(rng.randint(0, 3)):
+        lim(not side, mid + (k + 1 if side else -(k + 1)), rng.randint(1, 3))
+    s.match()
 
 
 def _sweeps(s, rng, pr, mid, den, exact, tick):
